@@ -29,6 +29,14 @@ Proof. reflexivity. Qed.
 Lemma last_partition_rule_unguarded : c02_last_part_guard = false.
 Proof. reflexivity. Qed.
 
+(* PutPlog cuts an event that is not valid down to its error record after encoding it (c96e94a78),
+   and storeEventBuildError writes the original name kept in the error record (796fe6f32); if
+   either goes back these lemmas and the theorems using them break *)
+Lemma putplog_returns_stored_shape_of_invalid_event : c02_putplog_clears_invalid = true.
+Proof. reflexivity. Qed.
+Lemma reencoding_keeps_original_name : c02_reencode_orig_name = true.
+Proof. reflexivity. Qed.
+
 (* ================= A. range reads ================= *)
 
 (* readLogParts as it is in the code: the closed sub-ranges handed to readPart cover exactly
@@ -187,19 +195,36 @@ Qed.
    stored_form e = e except that
    - the activation flags of CUD rows (ICUDRow.IsActivated/IsDeactivated) are not kept (C02-F3);
    - of an event that is not valid only the error record is kept: argument objects and CUD rows
-     are dropped (C02-F4), message and original name are cut to 65535 bytes (C02-F6), the original
+     are dropped (since c96e94a78 PutPlog does the same to the object it returns), message and original name are cut to 65535 bytes (C02-F6), the original
      bytes are dropped when the command has an unlogged argument (documented behaviour). *)
 Theorem decode_encode :
   forall s e, wf_event s e -> decode s (enc_event e) = Some (stored_form e).
 Proof. exact decode_encode_proved. Qed.
 
-(* FULL STATEMENT (refuted three ways): forall s e, wf_event s e -> decode s (enc_event e) = Some e *)
+(* Headline: an appended event reads back as the object PutPlog returned (and caches), for every
+   event shape incl. invalid events with whatever the builder left in their arguments; remaining
+   exclusions: the activation flags of CUD rows (C02-F3) and error texts above 65535 bytes (C02-F6). *)
+Theorem appended_event_reads_back :
+  forall s e, wf_event s e -> no_actmod e -> short_texts e ->
+  decode s (enc_event e) = Some (returned_form e).
+Proof. exact (fun s e => returned_object_reads_back_proved c02_putplog_clears_invalid s e putplog_returns_stored_shape_of_invalid_event). Qed.
+
+(* An event decoded from the log and encoded again (PutWlog of an event delivered by a range read)
+   gives the bytes it was decoded from. *)
+Theorem reencoding_decoded_event_is_identity :
+  forall s e, wf_event s e -> exists d, decode s (enc_event e) = Some d /\ reencode d = enc_event e.
+Proof. exact (fun s e => reencode_decoded_proved c02_reencode_orig_name s e reencoding_keeps_original_name). Qed.
+
+(* FULL STATEMENT (refuted): forall s e, wf_event s e -> decode s (enc_event e) = Some e.
+   Witnesses: CUD activation flag (C02-F3, open); error text above 65535 bytes (C02-F6, open);
+   arguments of an invalid event as the builder left them - the object PutPlog returned before
+   c96e94a78 (returned_form_with false e = e; C02-F4, fixed). *)
 Theorem codec_roundtrip_refuted :
   exists s e, wf_event s e /\ decode s (enc_event e) <> Some e.
 Proof. exact codec_roundtrip_refuted_proved. Qed.
 
 Theorem codec_roundtrip_error_arguments_refuted :
-  exists s e, wf_event s e /\ no_actmod e /\ decode s (enc_event e) <> Some e.
+  exists s e, wf_event s e /\ no_actmod e /\ decode s (enc_event e) <> Some (returned_form_with false e).
 Proof. exact error_args_refuted_proved. Qed.
 
 Theorem codec_roundtrip_long_error_text_refuted :
@@ -210,6 +235,12 @@ Proof. exact long_error_refuted_proved. Qed.
 Theorem codec_roundtrip_partial :
   forall s e, wf_event s e -> no_actmod e -> bare_error e -> decode s (enc_event e) = Some e.
 Proof. exact codec_roundtrip_partial_proved. Qed.
+
+(* Regression record (C02-F5, fixed by 796fe6f32): writing the event's own name when re-encoding
+   loses the original name of a decoded error event *)
+Theorem reencoding_with_own_name_refuted :
+  exists e, wf_event sch_any e /\ reencode_with false (stored_form e) <> enc_event (stored_form e).
+Proof. exact reencode_own_name_refuted_proved. Qed.
 
 (* A truncated copy of a stored event is rejected, whatever the schema: every proper prefix of
    every encoding fails to decode. *)
@@ -275,6 +306,9 @@ Print Assumptions read_log_nothing_for_nonpositive_count.
 Print Assumptions read_log_boundary_refuted.
 Print Assumptions read_log_gap_refuted.
 Print Assumptions decode_encode.
+Print Assumptions appended_event_reads_back.
+Print Assumptions reencoding_decoded_event_is_identity.
+Print Assumptions reencoding_with_own_name_refuted.
 Print Assumptions codec_roundtrip_refuted.
 Print Assumptions codec_roundtrip_error_arguments_refuted.
 Print Assumptions codec_roundtrip_long_error_text_refuted.
